@@ -474,7 +474,20 @@ func TestMC_C03(t *testing.T) {
 		c.Set("bfs_"+g, map[string]int64{"states": s, "transitions": x})
 	}
 	c.Require(st > 60 && tr > 500, "vacuous sequential exploration: %d states, %d transitions", st, tr)
+	c03Concurrent(c)
+}
 
+// TestMCRace_C03 is the separate free-running pass (go test -race): the bodies
+// of the concurrent scenarios on plain goroutines. It discharges the
+// assumption that code between two scheduling points is free of data races.
+func TestMCRace_C03(t *testing.T) {
+	c := verifmc.Start(t, "C03", "model_checking")
+	defer c.Finish()
+	c03Concurrent(c)
+	verifmc.RacePassDone("C03")
+}
+
+func c03Concurrent(c *verifmc.Check) {
 	// concurrent part
 	badger.VerifHook = func(kind, dir string, writes int) error {
 		verifmc.Point("txn." + kind)
@@ -555,5 +568,5 @@ func TestMC_C03(t *testing.T) {
 	c.Set("concurrent_executions", execs)
 	c.Set("preemption_bound", bound)
 	c.Set("scenarios_with_several_outcomes", contended)
-	c.Require(contended >= len(scen)/2 || c.Violations() > 0, "only %d of %d scenarios produced more than one outcome", contended, len(scen))
+	c.Require(verifmc.FreeRunning() || contended >= len(scen)/2 || c.Violations() > 0, "only %d of %d scenarios produced more than one outcome", contended, len(scen))
 }
